@@ -40,6 +40,7 @@ BOUNDED_CFG = """
 // by fall-through).  One harness per shape.
 fn cfg3(k0: u8, k1: u8, k2: u8) {
     crate::arith::reset();
+    init_names_unused();
     let n = 3usize;
     let ops = [k0, k1, k2];
     let offs: [i16; 3] = kani::any();
